@@ -42,4 +42,26 @@ theorem C03_D7_prefix_refuted :
       s0.handle [1, 2, 3, 4, 5] 1000000000 (some 0) = some (s1, r) ∧
       s1.restart parseMACKey id = .error .loadFailed := C03_D7_refuted
 
+/-- D19. `setupRange` keeps the lease time rounded to whole seconds (`keptLease`), and for a whole number of
+seconds (below 2^32) the lease time the reply carries (option 51, `leaseOpt`) is exactly the duration the plugin
+computes the stored expiry from: "the lease promised" of `C03_holds` (the configured duration) and what the
+client is told are the same thing. -/
+theorem C03_promise_is_kept_lease (configured : Int) (h0 : 0 ≤ configured) (h1 : configured < 4294967295 * nsPerSec) :
+    (leaseOpt (keptLease configured) : Int) * nsPerSec = keptLease configured ∧
+    leaseOpt (keptLease configured) = leaseOpt configured := by
+  unfold keptLease leaseOpt unixRound nsPerSec at *
+  have hk : 0 ≤ (configured + 500000000) / 1000000000 := by omega
+  have hk2 : (configured + 500000000) / 1000000000 < 4294967296 := by omega
+  have e1 : ((configured + 500000000) / 1000000000 * 1000000000 + 500000000) / 1000000000 = (configured + 500000000) / 1000000000 := by omega
+  rw [e1]
+  have e2 : (configured + 500000000) / 1000000000 % 4294967296 = (configured + 500000000) / 1000000000 := by omega
+  rw [e2]
+  constructor
+  · rw [Int.toNat_of_nonneg hk]
+  · trivial
+
+/-- before the repair the two differed: 1.5 s is announced as 2 s (the failing input of D19) -/
+example : leaseOpt 1500000000 = 2 ∧ (leaseOpt 1500000000 : Int) * nsPerSec ≠ 1500000000 ∧ keptLease 1500000000 = 2000000000 := by
+  refine ⟨by decide, by decide, by decide⟩
+
 end CoreDhcp
